@@ -337,6 +337,43 @@ Section Decl.
         | DScope => DScope | DFuel => DFuel
         end
     end.
+
+  (* ---- the declaration blocks of a FUNCTION:  io_var_declarations / function_var_decls.  The inputs, outputs and in-outs
+          are those of a function block; VAR takes only CONSTANT, needs at least one declaration (semisep_oneplus) and
+          reads var1_init_decl__with_ambiguous_struct, which is what [var_init_decl] models ---- *)
+  Definition semisep1 (x : nat -> list tk -> D (list ditem)) (f : nat) (ts : list tk) : D (list ditem) :=
+    match x f ts with
+    | DFail => DFail
+    | _ => semisep x f ts
+    end.
+  Definition block_rest1 (x : nat -> list tk -> D (list ditem)) (q : dqual) (f : nat) (ts : list tk) : D (list ditem) :=
+    match semisep1 x f (skip ts) with
+    | DOk (l, r) => match next_is (is_dk DkEndVar) r with
+                    | Some r1 => DOk (map (set_qual q) l, r1)
+                    | None => DFail
+                    end
+    | DFail => DFail | DScope => DScope | DFuel => DFuel
+    end.
+  Definition fblock (f : nat) (ts : list tk) : D (list ditem) :=
+    match ts with
+    | t :: r =>
+        match cl t with
+        | CDk DkVarInput | CDk DkVarOutput | CDk DkVarInOut => block f ts
+        | CDk DkVar => let '(q, r1) := const_qual r in block_rest1 (var_init_decl DcVar) q f r1
+        | _ => DFail
+        end
+    | [] => DFail
+    end.
+  Fixpoint fblocks (f : nat) (acc : list ditem) (ts : list tk) : D (list ditem) :=
+    match f with
+    | O => DFuel
+    | S f' =>
+        match fblock f' (skip ts) with
+        | DOk (b, r) => fblocks f' (acc ++ b) r
+        | DFail => DOk (acc, ts)
+        | DScope => DScope | DFuel => DFuel
+        end
+    end.
 End Decl.
 
 (* ---- TYPE ... END_TYPE: data type declarations (B.1.3.3).  type_declaration tries, in this order: string types, arrays,
